@@ -99,6 +99,9 @@ pub enum VOp {
     Retain(u8),
     Dedup,
     DedupByKey,
+    /// dedup_by with a predicate that is not transitive (values at most 1 apart): every element has to be compared
+    /// with the last *retained* one
+    DedupBy,
     SplitOff(usize, usize),
     Reserve(usize),
     ReserveExact(usize),
@@ -406,6 +409,13 @@ pub fn model_apply(m: &mut Vec<u32>, kind: Kind, op: &VOp, fixed_cap: usize) -> 
             m.dedup_by_key(|v| *v / 2);
             Ret::none()
         }
+        VOp::DedupBy => {
+            if rev {
+                return None;
+            }
+            m.dedup_by(|a, b| a.abs_diff(*b) <= 1);
+            Ret::none()
+        }
         VOp::SplitOff(s, e) => {
             if matches!(kind, Kind::MutVec | Kind::MutVecRev) {
                 return None;
@@ -640,7 +650,7 @@ macro_rules! grow_ops {
                 return Some(Ret::none());
             }
             VOp::ExtendWithin(s, e) => {
-                $self.extend_from_within_clone(s..e);
+                $self.extend_from_within_clone(crate::elem::bounds((s * 3 + e) % 5, s, e, $self.len()));
                 return Some(Ret::none());
             }
             VOp::ExtendIter(c, over) => {
@@ -700,7 +710,7 @@ macro_rules! retain_ops {
                 return Some(Ret::none());
             }
             VOp::Drain(s, e, take) => {
-                let d = $self.drain(s..e);
+                let d = $self.drain(crate::elem::bounds((s * 3 + e + 1) % 5, s, e, $self.len()));
                 let (out, it) = take_from(d, take);
                 match take {
                     Take::Forget => std::mem::forget(it),
@@ -750,6 +760,13 @@ macro_rules! retain_ops {
                 $self.dedup_by_key(|e| {
                     tick();
                     e.val() / 2
+                });
+                return Some(Ret::none());
+            }
+            VOp::DedupBy => {
+                $self.dedup_by(|a, b| {
+                    tick();
+                    a.val().abs_diff(b.val()) <= 1
                 });
                 return Some(Ret::none());
             }
@@ -808,7 +825,7 @@ where
                 Some(Ret::none())
             }
             VOp::Splice(s, e, c, take) => {
-                let sp = self.splice(s..e, TickIter::<T>::new(800, c, false));
+                let sp = self.splice(crate::elem::bounds((s * 3 + e + 3) % 5, s, e, self.len()), TickIter::<T>::new(800, c, false));
                 let (out, it) = take_from(sp, take);
                 if take == Take::Forget {
                     // leaking a Splice may leak elements, and the vector is left in a valid but unspecified state
@@ -825,7 +842,7 @@ where
                 Some(Ret::vals(out))
             }
             VOp::SplitOff(s, e) => {
-                let other = self.split_off(s..e);
+                let other = self.split_off(crate::elem::bounds((s * 3 + e + 2) % 5, s, e, self.len()));
                 let r = Ret::vals(other.iter().map(|e| e.val()).collect());
                 drop(other);
                 Some(r)
@@ -997,7 +1014,7 @@ impl<'b, T: ElemT + Clone + PartialEq> Subject<T> for FixedBumpVec<'b, T> {
         retain_ops!(self, op, T);
         match *op {
             VOp::SplitOff(s, e) => {
-                let other = self.split_off(s..e);
+                let other = self.split_off(crate::elem::bounds((s * 3 + e + 2) % 5, s, e, self.len()));
                 let r = Ret::vals(other.iter().map(|e| e.val()).collect());
                 drop(other);
                 Some(r)
@@ -1039,7 +1056,7 @@ impl<'b, T: ElemT + Clone + PartialEq> Subject<T> for BumpBox<'b, [T]> {
         retain_ops!(self, op, T);
         match *op {
             VOp::SplitOff(s, e) => {
-                let other = self.split_off(s..e);
+                let other = self.split_off(crate::elem::bounds((s * 3 + e + 2) % 5, s, e, self.len()));
                 let r = Ret::vals(other.iter().map(|e| e.val()).collect());
                 drop(other);
                 Some(r)
